@@ -52,7 +52,7 @@ fn spec_len(kind: &str, shape: &[usize], a: usize, b: usize) -> usize {
         "lane" | "lanemut" => shape[a],
         "inner" | "innermut" => product(&shape[..shape.len() - a]),
         "axisiter" | "axisitermut" => shape[a],
-        "chunks" | "chunksmut" => shape[a].div_ceil(b.max(1)),
+        "chunks" | "chunksmut" | "rchunks" => shape[a].div_ceil(b.max(1)),
         _ => panic!("unknown kind {}", kind),
     }
 }
@@ -93,7 +93,10 @@ fn exec_case(kind: &str, variant: &str, shape: &[usize], strides: &[usize], a: u
         };
     }
 
-    let obs = if !is_mut(kind) {
+    let obs = if kind == "rchunks" {
+        // rten_base::iter::range_chunks(0..n, chunk): same contract as AxisChunks over a 1-D axis
+        run(rten_base::iter::range_chunks(0..shape[0], b), h, &|r: std::ops::Range<usize>| r.collect())
+    } else if !is_mut(kind) {
         let v = TensorView::<E>::from_slice_with_strides(shape, &data, strides).expect("cannot build view");
         match kind {
             "iter" => run(v.iter(), h, &show_ref),
@@ -229,7 +232,7 @@ fn coq_kind(kind: &str) -> &'static str {
         "lane" | "lanemut" => "KLane",
         "inner" | "innermut" => "KInner",
         "axisiter" | "axisitermut" => "KAxisIter",
-        "chunks" | "chunksmut" => "KChunks",
+        "chunks" | "chunksmut" | "rchunks" => "KChunks",
         _ => panic!("unknown kind {}", kind),
     }
 }
@@ -258,7 +261,9 @@ fn exec_line(line: &str) -> String {
     let ab = parse_list(f[4]);
     let (a, b) = (ab.first().copied().unwrap_or(0), ab.get(1).copied().unwrap_or(0));
     let h = Hist::parse(f[5]);
-    let out = exec_case(kind, variant, &shape, &strides, a, b, &h);
+    // a panic outside the guarded iterator calls (constructor, Lanes::nth, ...) is an outcome too
+    let out = std::panic::catch_unwind(|| exec_case(kind, variant, &shape, &strides, a, b, &h))
+        .unwrap_or(Outcome { obs: Obs::Panic, mut_ok: false });
 
     let empty = product(&shape) == 0;
     let path = if empty {
@@ -410,6 +415,16 @@ const KINDS: [&str; 12] = [
 ];
 
 fn gen_case(rng: &mut SplitMix64, out: &mut impl Write) {
+    if rng.chance(1, 40) {
+        // RangeChunks (rten-base): a 1-D contiguous axis
+        let n = rng.below(14) as usize;
+        let cs = 1 + rng.below(5) as usize;
+        let len = n.div_ceil(cs);
+        let mut budget = rng.below(len as u64 + 4).min(9) as usize;
+        let h = gen_hist(rng, len, &mut budget, true, 0);
+        writeln!(out, "rchunks;dyn;{};1;0,{};{}", n, cs, h.text()).unwrap();
+        return;
+    }
     let kind = if rng.chance(1, 5) { rng.pick(&["chunks", "chunksmut"]) } else { rng.pick(&KINDS) };
     let needs_axis = !matches!(kind, "iter" | "itermut" | "inner" | "innermut");
     let (shape, strides) = gen_layout(rng, !is_mut(kind), if needs_axis { 1 } else { 0 });
